@@ -266,6 +266,10 @@ const RULE: &str = "fixture folder /verif/fixture_embed (18 files, nesting 5, do
 
 pub fn replay(v: &Value) -> CaseResult {
     let env = env().map_err(|m| Failure { message: m, replay: v.clone() })?;
+    if v.get("kind").and_then(|k| k.as_str()) == Some("c18-env") {
+        // the construction-time comparisons (second embedded type, Default constructor) passed
+        return Ok(());
+    }
     let op = crate::hist::op_from_json(v.get("op").unwrap_or(&Value::Null)).ok_or_else(|| Failure { message: "unparsable C18 replay".into(), replay: v.clone() })?;
     if op.is_observer() {
         check_observer(&env, &op)
@@ -284,7 +288,7 @@ pub fn run(ctx: &RunCtx) -> i32 {
     let mut stats = Stats::default();
     let mut failure: Option<Failure> = None;
     let r = guarded(|| -> Result<(), Failure> {
-        let env = env().map_err(|m| Failure { message: format!("ABORT: {}", m), replay: json!({}) })?;
+        let env = env().map_err(|m| Failure { message: m, replay: json!({"kind": "c18-env"}) })?;
         // initial view = the folder
         if env.base_snap != env.model {
             return Err(Failure { message: format!("EmbeddedFS view differs from the folder: {:?}", diff_trees(&env.model, &env.base_snap)), replay: json!({"kind": "c18", "op": ["exists", ""]}) });
@@ -357,7 +361,7 @@ pub fn run(ctx: &RunCtx) -> i32 {
 
 /// C13 part (d): all operations on every path of the exhaustive set; only panics count.
 pub fn panic_sweep() -> Result<u64, Failure> {
-    let env = env().map_err(|m| Failure { message: format!("ABORT: {}", m), replay: json!({}) })?;
+    let env = env().map_err(|m| Failure { message: m, replay: json!({"kind": "c18-env"}) })?;
     let paths = path_set(&env.model);
     let mut n = 0u64;
     for (i, (p, _)) in paths.iter().enumerate() {
